@@ -37,6 +37,8 @@ IDX = jnp.array([0, 2, 2, -1])
 UIDX = jnp.array([2, 0])
 IDX2 = jnp.array([[0, 1], [1, -1]])
 IDX3 = jnp.array([1, 1, 0])
+PERM = jnp.array([2, 0, 1])
+REP3 = jnp.array([0, 0, 1])
 MASK = jnp.array([True, False, True])
 M2 = jnp.array([True, False])
 SPD = jnp.array([[2., 1, 0], [1, 2, 0], [0, 0, 1]])
@@ -78,6 +80,10 @@ FAM = {
         'Pa': ((), lambda: IndexOperator(jnp.array([2, -1, 0, -3]), in_structure=S(3)), ''),
         'Mk': ((), lambda: IndexOperator(MASK, in_structure=S(3), out_structure=S(2)), ''),
         'Sl': ((), lambda: IndexOperator(slice(0, 2), in_structure=S(3)), ''),
+        # gathers that keep the structure (permutation, reversal, repetition): not the identity although in == out structure
+        'Pp': ((), lambda: IndexOperator(PERM, in_structure=S(3)), ''),
+        'Pr': ((), lambda: IndexOperator(slice(None, None, -1), in_structure=S(3)), ''),
+        'Pg': ((), lambda: IndexOperator(REP3, in_structure=S(3)), ''),
         'Rs': ((), lambda: ReshapeOperator((3, 1), in_structure=S(3)), ''),
         'Rs0': ((), lambda: ReshapeOperator((3,), in_structure=S(3)), ''),
         'Spd': ((), lambda: dense(spd_(SPD), S(3)), ''),
@@ -107,6 +113,7 @@ FAM = {
         'P0': ((), lambda: IndexOperator(IDX3, in_structure=S(2, 3)), ''),
         'P2': ((), lambda: IndexOperator((slice(None), IDX2), in_structure=S(2, 3)), ''),
         'Pn': ((), lambda: IndexOperator((slice(None), slice(None)), in_structure=S(2, 3)), ''),
+        'Pc': ((), lambda: IndexOperator((..., PERM), in_structure=S(2, 3)), ''),
         'E': (((3, 3),), lambda b: dense(b, S(2, 3), 'ij,kj->ki'), ''),
         'E2': (((2, 2),), lambda b: dense(b, S(2, 3), 'ij,j...->i...'), ''),
         'Tz': (((2, 2),), lambda h: SymmetricBandToeplitzOperator(h, S(2, 3), method='dense'), ''),
